@@ -66,9 +66,13 @@ func chooseWeaknessType(engine engine.Engine, target key.TargetID) (model.Damage
 			types.Remove(t)
 		}
 	}
+	// candidates in the order of the damage type enum, so that the draw below picks the same type
+	// for the same seed
 	keys := []model.DamageType{}
-	for t := range types {
-		keys = append(keys, t)
+	for t := model.DamageType_PHYSICAL; t <= model.DamageType_IMAGINARY; t++ {
+		if types.Has(t) {
+			keys = append(keys, t)
+		}
 	}
 	if len(keys) == 0 {
 		return model.DamageType_INVALID_DAMAGE_TYPE, false
